@@ -412,7 +412,7 @@ func (a *attempt) vote(k int) {
 	a.net.count("vote_txs_submitted", 1)
 }
 
-func runAttempt(t testing.TB, sc schedule, nAttempt int) (res *attemptResult, setupErr error) {
+func runAttempt(t testing.TB, sc schedule) (res *attemptResult, setupErr error) {
 	t0 := time.Now()
 	res = &attemptResult{kinds: map[string]bool{}}
 	cfg := sc.Cfg
@@ -503,7 +503,7 @@ func runAttempt(t testing.TB, sc schedule, nAttempt int) (res *attemptResult, se
 }
 
 func TestCheck(t *testing.T) {
-	run := ev.Start("C19", "one case = one seeded network schedule: N real consensus services over N real ledgers and block queues; alternating fault phases (loss, duplication, delay/reordering, partitions, up to f validators cut/mute/deaf/late, drawn from the seed, impaired+lagging <= f outside partitions) and quiet phases (bounded progress demanded); transactions pooled at random subsets of validators and fetched through RequestTx. Distinct = cluster configuration x fault kinds applied x mechanisms reached (view change, recovery, tx fetch, block sync); non-trivial = blocks were produced under faults and the offline checker compared ledgers of all nodes")
+	run := ev.Start("C19", "one case = one seeded network schedule over a cluster variant (N validators, optionally N+2 committee nodes with elections, StateRootInHeader, extensible pool in front of the service, tiny block limits, MaxTimePerBlock): real consensus services over real ledgers and block queues; fault phases drawn from the seed (loss, duplication, delay/reordering, partitions, targeted loss of view-0 prepare responses so that some validators commit while the others change view, up to f validators cut/mute/deaf/late; impaired+lagging <= f outside partitions) alternate with quiet phases in which bounded progress is demanded; transactions are pooled at random subsets of nodes and fetched through RequestTx. Distinct = cluster variant x fault kinds applied x mechanisms reached (view change, recovery, tx fetch, block sync, duplication, reordering); non-trivial = blocks were produced under faults and the offline checker compared the ledgers of all nodes")
 	defer run.Finish()
 	run.Assume("the simulated network stands for the P2P layer: payloads, blocks and transactions are re-encoded and re-decoded on every hop; inv/getdata/response exchanges are folded into one message that can be lost, duplicated or delayed")
 	run.Assume("validators are honest or silent/late (cut, mute, deaf, delayed); Byzantine payloads are out of scope of the property")
@@ -553,7 +553,7 @@ func runSchedule(t *testing.T, run *ev.Run, sc schedule) {
 	var stalls []string
 	var last *attemptResult
 	for att := 1; att <= 3; att++ {
-		res, err := runAttempt(t, sc, att)
+		res, err := runAttempt(t, sc)
 		if err != nil {
 			run.Inconclusive("%s: harness set-up failed: %v", sc.ID, err)
 			return
